@@ -99,6 +99,9 @@ def cases(rng, tier):
 			yield ('seq', (('S', good, b'v'), ('G', good), ('S', bad, b'w'), ('G', good), ('A', bad, b'x'), ('F', bad, b'y'), ('G', good), ('C',)))
 	yield ('seq', (('S', b'content-length', b'1'), ('G', b'CONTENT-LENGTH'), ('H', b'Content-length'), ('D', b'cOnTeNt-LeNgTh'), ('H', b'content-length')))
 	yield ('seq', (('R', b'A: 1\r\nB: 2\r\na: 3\r\nSet-Cookie: x=1\r\nset-cookie: y=2\r\nCookie: p=1\r\ncookie: q=2'), ('C',)))
+	# a field received twice with the same short value, with an empty value; the same name twice in a constructor argument
+	for blk in (b'X-Retry: 1\r\nx-retry: 1', b'Cookie: a\r\ncookie: a', b'X-E: \r\nx-e: ', b'X-E: a\r\nx-e: \r\nX-E: c', b'Via: \r\nvia: b', b'X-Z: \r\nX-Z: \r\nX-Z: '):
+		yield ('seq', (('R', blk), ('G', b'x-retry'), ('G', b'cookie'), ('G', b'X-E'), ('C',)))
 	for bad in BADNAMES:
 		yield ('seq', (('S', bad, b'v'),))
 		yield ('seq', (('R', bad + b': v'),))
@@ -423,6 +426,12 @@ def oracle(case):
 				except InvalidHeader:
 					continue
 				return {'what': 'Headers.fromkeys() accepts the invalid field name %r' % (n_,), 'finding': None}
+		# one name twice in a constructor argument, in different letter case: the later value, whatever the spellings
+		for first_, second_ in ((b'x-request-id', b'X-Request-Id'), (b'X-Request-Id', b'x-request-id'), (b'ETAG', b'ETag'), (b'content-md5', b'Content-MD5')):
+			for mk in (lambda prs: Headers(prs), lambda prs: Headers(iter(prs))):
+				hc = mk([(first_.decode(), b'one'), ('X-Other', b'o'), (second_.decode(), b'two')])
+				if hc.getbytes(first_) != b'two' or hc.getbytes(second_) != b'two' or len(hc) != 2:
+					return {'what': 'Headers([(%r, one), (X-Other, o), (%r, two)]) holds %r' % (first_, second_, dict(dict.items(hc))), 'finding': None}
 		before = dict(dict.items(h))
 		clone = Headers(h)
 		if dict(dict.items(clone)) != before:
